@@ -300,6 +300,18 @@ def nearestAssignments {β V : Type} (subst : List (List α) → β) (near : β 
     (rvs : RVs α) : List (α × V) :=
   rvs.flatMap (nearestStep subst near)
 
+/-- The value a sequence of assignments `nearest[key] = value` leaves under the key `a`
+    (`none`: never assigned); later assignments win. -/
+def lastAssigned {V : Type} (asg : List (α × V)) (a : α) : Option V :=
+  asg.foldl (fun acc p => if p.1 = a then some p.2 else acc) none
+
+/-- The block of `d` read back after the assignments (`dist.variance.subs(nearest)`): position
+    `(i, j)` holds the value written last under the parameter standing at `(i, j)` of the symbolic
+    matrix, `none` where nothing was written. -/
+def blockAfter {V : Type} (asg : List (α × V)) (d : Dist α) : List (List (Option V)) :=
+  (List.range (matRows d.var)).map fun i =>
+    (List.range (matRows d.var)).map fun j => lastAssigned asg (ent d.var i j)
+
 end generic
 
 /-! ### nearest_positive_semidefinite: control flow over abstract numerics -/
